@@ -31,6 +31,9 @@ func Pool() []Block {
 		{Name: "T_b", Kind: "type", Defines: []string{"@b"}, Needs: []string{"@a"}, Nodes: one(func() *Node {
 			return N("TYPE", "@b").WithAnn("uses a").WithBody("{\n  \"a\": @a,\n  \"n\": 2\n}")
 		})},
+		{Name: "T_bb", Kind: "type", Defines: []string{"@bb"}, Needs: []string{"@b"}, Nodes: one(func() *Node {
+			return N("TYPE", "@bb").WithBody("{\n  \"b\": @b\n}")
+		})},
 		{Name: "T_c", Kind: "type", Defines: []string{"@c"}, Nodes: one(func() *Node {
 			return N("TYPE", "@c").WithBody("\"str\" // {minLength: 1}")
 		})},
